@@ -281,6 +281,78 @@ def check_dict(case):
     return {'nt': len(d) >= 2, 'cls': cls, 'sample': {'keys': [k[:40] for k in list(d)[:6]]}}
 
 
+# ---------------------------------------------------------------------------
+# size sweep: the word size of the format depends on the largest identifier / count, so every power of two
+# up to 1024 is crossed by the number of gates and by inputs + gates (deterministic circuits, no generator)
+
+SWEEP_TYPES = ['AND', 'NOT', 'OR', 'XOR', 'IFF', 'NAND', 'NOR', 'NXOR', 'GT', 'LT', 'GEQ', 'LEQ']
+
+
+def sized_netlist(n_in, n_gates, n_out, variant):
+    ins = [f'x{i}' for i in range(n_in)]
+    gates = [[x, 'INPUT', []] for x in ins]
+    labs = list(ins)
+    for k in range(n_gates):
+        typ = SWEEP_TYPES[(k * 7 + variant) % len(SWEEP_TYPES)]
+        a = labs[-1 - (k * 3 + variant) % min(len(labs), 5)]
+        b = labs[(k * k + variant) % len(labs)]
+        lab = f'g{k}'
+        gates.append([lab, typ, [a] if typ in ('NOT', 'IFF') else [a, b]])
+        labs.append(lab)
+    outs = [labs[-1 - (q * 5) % len(labs)] for q in range(n_out)]
+    return {'inputs': ins, 'gates': gates, 'outputs': outs}
+
+
+def sweep_configs(tier):
+    top = 9 if tier == 'quick' else 11
+    cfg = []
+    for n_in in (1, 3, 5):
+        totals = set()
+        for k in range(1, top + 1):
+            for d in (-1, 0, 1):
+                totals.add((1 << k) + d)
+        for tot in sorted(totals):
+            for g in {tot, tot - n_in}:
+                if g < 0:
+                    continue
+                for n_out in ((1, 2) if tier == 'quick' else (0, 1, 2, 3)):
+                    cfg.append((n_in, g, n_out, (g + n_out) % 3))
+    # the number of outputs alone can set the word size (repeated outputs of a tiny circuit)
+    for n_in in (1, 2):
+        for g in (0, 1, 3):
+            for k in range(1, top + 1):
+                for d in (-1, 0, 1):
+                    cfg.append((n_in, g, (1 << k) + d, k % 3))
+    return sorted(set(cfg))
+
+
+def size_sweep(tier, shard, nshards, seed):
+    cfg = sweep_configs(tier)
+    done = nt = 0
+    sample = None
+    for idx, (n_in, g, n_out, variant) in enumerate(cfg):
+        if idx % nshards != shard:
+            continue
+        case = {'n_in': n_in, 'n_gates': g, 'n_out': n_out, 'variant': variant}
+        try:
+            replay_size(case)
+        except Violation as v:
+            v.case = case
+            raise
+        except BaseException as e:  # noqa
+            e.case = case
+            raise
+        done += 1
+        nt += g >= 2
+        sample = case
+    return {'evaluations': done, 'distinct_nontrivial': nt, 'exhaustive': False, 'counters': {}, 'samples': [sample] if sample else []}
+
+
+def replay_size(case):
+    nl = sized_netlist(case['n_in'], case['n_gates'], case['n_out'], case['variant'])
+    check_codec({'nl': nl, 'route': {'kind': 'emplace'}, 'via_db': False, 'db_label': ''})
+
+
 SPEC = {
     'id': 'C16',
     'rule': ('(a) in-format circuits: the 14 encodable types with the arity the format defines (one operand for NOT/IFF, two for everything else incl. the constants), 0-8 inputs, any '
@@ -289,7 +361,8 @@ SPEC = {
              'outputs map to the same digests, equal reference table). (b) out-of-format circuits (n-ary gates, constants with 0/1/3 operands, '
              'LIFF/RIFF/LNOT/RNOT): codec error at encode, or an isomorphic decode - never a decode error, foreign '
              'exception or silently different circuit. (c) BitWriter/BitReader on generated bit/byte/number sequences '
-             'incl. overflowing and negative numbers. (d) write/read_binary_dict on dictionaries with arbitrary Unicode '
+             'incl. overflowing and negative numbers. Size sweep (sharded, deterministic chains): number of gates, inputs + gates and '
+             'number of outputs at 2^k-1, 2^k, 2^k+1 for k up to 9 (11 thorough) - every word size of the format. (d) write/read_binary_dict on dictionaries with arbitrary Unicode '
              'keys (no lone surrogates) incl. maximum-length entries, every strict prefix and an extension. (e) in-memory '
              'CircuitsDatabase add -> save -> reopen -> get_by_label with arbitrary text labels. Non-trivial: >=2 '
              'non-input gates (circuits), >=3 writes not byte aligned (bits), >=2 entries (dict).'),
@@ -297,6 +370,8 @@ SPEC = {
     'subs': [Sub('codec', circuit_cases, check_codec, {'quick': 3000, 'thorough': 250000}),
              Sub('bits', bit_cases, check_bits, {'quick': 1500, 'thorough': 100000}),
              Sub('dict', dict_cases, check_dict, {'quick': 1200, 'thorough': 75000})],
+    'sharded': {'size_sweep': size_sweep},
+    'replay': {'size_sweep': replay_size},
     'required_classes': {'codec': ['in_format', 'out_of_format', 'storage_not_topological', 'constant',
                                    'zero_inputs_pow2_gates', 'nary>=3', 'LR_gate', 'via_db', 'dup_output'],
                          'dict': ['non_ascii_key', 'max_length_value'], 'bits': ['has_rejected']},
